@@ -306,7 +306,7 @@ func runHistory(hc histCase) {
 				sum := md5hex(string(raw))
 				run.Case(run.NewID(), fmt.Sprintf("HB %s 2 P %s %s %s %s - G %s %s MODE %o", common.Hex(*hc.Init), common.Hex("lenient.example"),
 					common.Hex(want.Username), common.Hex(want.Password), common.Hex(want.RefreshToken), common.Hex("lenient.example"), credStr(want), hc.Mode),
-					fmt.Sprintf("RES ok %s MODE 600 BYTES %s %s", credStr(want), sum, sum))
+					fmt.Sprintf("RES ok %s MODE 600 BYTES %s %s REOPEN same", credStr(want), sum, sum))
 				run.Count("file-bytes:lenient-read-by-model")
 				run.Evaluations--
 			}
@@ -745,7 +745,11 @@ func runHistory(hc histCase) {
 			line += " DP 1"
 		}
 		line = strings.Join(strings.Fields(line), " ")
-		run.Case(run.NewID(), line, fmt.Sprintf("RES %s MODE %s BYTES %s", strings.Join(results, " "), finalMode, strings.Join(byteSums, " ")))
+		reopen := "n/a"
+		if saved {
+			reopen = "same" // the implementation's own reload was checked by the oracle above (reload, reload-roundtrip)
+		}
+		run.Case(run.NewID(), line, fmt.Sprintf("RES %s MODE %s BYTES %s REOPEN %s", strings.Join(results, " "), finalMode, strings.Join(byteSums, " "), reopen))
 		run.Count("file-bytes:read-by-model")
 		run.Evaluations--
 	}
